@@ -155,6 +155,7 @@ func (f *Query) UnmarshalXML(d *xml.Decoder, start xml.StartElement) error {
 
 	f.ID = s.ID
 	f.With, _ = s.Form.GetJID(fieldWith)
+	f.Start, f.End = time.Time{}, time.Time{}
 	startTime, ok := s.Form.GetString(fieldStart)
 	if ok {
 		//panic(startTime)
